@@ -42,8 +42,9 @@ theorem solSimplify_spec (hR : Reg R E) (hS : SimpOn R E) (hV : SimpVars R E) (s
   cases hsimp : s.fe.simplified with
   | true =>
     simp only [↓reduceIte]
-    refine ⟨⟨⟨⟨h.base.core.toAdd_sub, h.base.core.obj, h.base.core.noReuse, h.base.core.untracked⟩, h.base.equiv,
-      ⟨h.base.dinv.consR, seen_union hR h.base.dinv s.fe.constraints h.base.dinv.consR h.base.equiv⟩, h.base.vars, ?_⟩,
+    refine ⟨⟨⟨⟨h.base.core.toAdd_sub, h.base.core.obj, h.base.core.noReuse⟩, h.base.equiv,
+      ⟨h.base.dinv.consR, seen_union hR h.base.dinv s.fe.constraints h.base.dinv.consR h.base.equiv⟩, h.base.vars, ?_,
+      h.base.areg⟩,
       h.mc.of_fields rfl rfl rfl rfl rfl rfl, h.sc⟩, Keep.of_fe rfl rfl⟩
     obtain ⟨s0, hg, hw⟩ := h.base.ghost
     exact ⟨s0, hg, hw.trans (WStep.of_fe rfl rfl rfl rfl)⟩
@@ -89,12 +90,11 @@ theorem solSimplify_spec (hR : Reg R E) (hS : SimpOn R E) (hV : SimpVars R E) (s
     have e_wo : (scSimpFe out fe2).woAnnot = s.fe.woAnnot := by rw [hfields, hfe2']
     have e_var : (scSimpFe out fe2).variables = s.fe.variables := by rw [hfields, hfe2']
     have e_fin : (scSimpFe out fe2).finalized = s.fe.finalized := by rw [hfields, hfe2']
-    refine ⟨⟨⟨⟨?_, ?_, h.base.core.noReuse, ?_⟩, ?_, ⟨?_, ?_⟩, ?_, ?_⟩, ?_, ?_⟩, ⟨?_, ?_⟩⟩
+    refine ⟨⟨⟨⟨?_, ?_, h.base.core.noReuse⟩, ?_, ⟨?_, ?_⟩, ?_, ?_, ?_⟩, ?_, ?_⟩, ⟨?_, ?_⟩⟩
     · intro a _; show holdsAll (scSimpFe out fe2).toAdd a = true; rw [e_toadd]; rfl
     · intro r hr
       have : (scSimpFe out fe2).solver = some r := hr
       rw [e_sol] at this; cases this
-    · show (scSimpFe out fe2).track = false; rw [e_track]; exact h.base.core.untracked
     · intro a; show holdsAll (scSimpFe out fe2).constraints a = _; rw [e_cons]; exact hoeq a
     · intro c hc
       have : c ∈ (scSimpFe out fe2).constraints := hc
@@ -111,6 +111,9 @@ theorem solSimplify_spec (hR : Reg R E) (hS : SimpOn R E) (hV : SimpVars R E) (s
     · obtain ⟨s0, hg, hw⟩ := h.base.ghost
       refine ⟨s0, hg, hw.trans ⟨Nat.le_refl _, Or.inr (Or.inl e_sol), fun _ _ _ => rfl, rfl, fun hf => ?_⟩⟩
       show (scSimpFe out fe2).finalized = true; rw [e_fin]; exact hf
+    · intro _ r hr
+      have : (scSimpFe out fe2).solver = some r := hr
+      rw [e_sol] at this; cases this
     · exact hmc.of_fields hmodels (by rw [hfields]) (by rw [hfields]) (by rw [hfields]) (by rw [hfields]) (by rw [hfields])
     · show SCInv U { scSimpFe out fe2 with hashes := _ }
       unfold SCInv
@@ -142,9 +145,9 @@ theorem sL9_simplify_spec (hR : Reg R E) (hS : SimpOn R E) (hV : SimpVars R E) (
 /-! ### `downsize` -/
 
 theorem solDownsize_spec (s : St) (h : SI R RE E G U s) : SI R RE E G U (clDownsizeSt s) ∧ Keep U s (clDownsizeSt s) := by
-  refine ⟨⟨⟨⟨fun a _ => rfl, fun r hr => by simp [clDownsizeSt] at hr, h.base.core.noReuse, h.base.core.untracked⟩,
-    h.base.equiv, ⟨h.base.dinv.consR, h.base.dinv.seen⟩, h.base.vars, ?_⟩, h.mc.of_fields rfl rfl rfl rfl rfl rfl, h.sc⟩,
-    Keep.of_fe rfl rfl⟩
+  refine ⟨⟨⟨⟨fun a _ => rfl, fun r hr => by simp [clDownsizeSt] at hr, h.base.core.noReuse⟩,
+    h.base.equiv, ⟨h.base.dinv.consR, h.base.dinv.seen⟩, h.base.vars, ?_, fun _ r hr => by simp [clDownsizeSt] at hr⟩,
+    h.mc.of_fields rfl rfl rfl rfl rfl rfl, h.sc⟩, Keep.of_fe rfl rfl⟩
   obtain ⟨s0, hg, hw⟩ := h.base.ghost
   exact ⟨s0, hg, hw.trans ⟨Nat.le_refl _, Or.inr (Or.inl rfl), fun _ _ _ => rfl, rfl, fun hf => hf⟩⟩
 
